@@ -23,7 +23,8 @@ def rscript (r : Out Acc.Scriptlet) : String :=
     s!"ok:{hx sc.script},{f},{p}"
   | _ => "err"
 
-def knownCompressors : List Bytes := ["none", "gzip", "zstd", "xz", "bzip2"].map (·.toUTF8.toList)
+/-- the texts `CompressionType::from_str` accepts: the table scraped from src/rpm/compressor.rs (`Gen.compressionFromStr`) -/
+def knownCompressors : List Bytes := Acc.compressorNames
 
 def scr (h : Header) (k : String) : Out Acc.Scriptlet :=
   match scriptletTags.find? (·.1 == k) with
